@@ -225,9 +225,15 @@ fn interp<C: Context>(k: u8, n: u32, ctx: &mut C) -> Out {
   }
 }
 
+/// The library's own in-memory map resource (`MapKey`), used uninstrumented with the library's `MapEqualsChecker`.
+#[derive(Clone, Copy, PartialEq, Eq, Hash, Debug)]
+pub struct MK(pub u32);
+impl pie::resource::map::MapKey for MK { type Value = i64; }
+
 fn read_res<C: Context>(ctx: &mut C, scn: &Scenario, r: i64, chk: RChk) -> i64 {
   let (ty, num) = (scn.rtype[(r - 1) as usize], scn.rnum[(r - 1) as usize]);
   match ty {
+    2 => ctx.read(&MK(num), pie::resource::map::MapEqualsChecker).expect("harness: unexpected read error").copied().unwrap_or(ABSENT),
     0 => ctx.read(&Res::<0>(num), chk).expect("harness: unexpected read error").get(),
     1 => ctx.read(&Res::<1>(num), chk).expect("harness: unexpected read error").get(),
     _ => panic!("harness: unknown resource type"),
@@ -250,6 +256,22 @@ fn write_res<C: Context>(ctx: &mut C, scn: &Scenario, r: i64, chk: RChk, v: i64,
   match ty {
     0 => go(ctx, Res::<0>(num), chk, v, two_step),
     1 => go(ctx, Res::<1>(num), chk, v, two_step),
+    2 => {
+      use pie::resource::map::{MapEqualsChecker, MapWriter};
+      use std::collections::hash_map::Entry;
+      // the map resource cannot log its own mutations: the write function (harness code) reports what it stored
+      let set = |w: &mut MapWriter<'_, MK>| {
+        if v == ABSENT { if let Entry::Occupied(e) = w.entry() { e.remove(); } } else { w.insert(v); }
+        emit(json!({"ev":"res_set","r":r,"v":v,"id":0}));
+      };
+      let key = MK(num);
+      if two_step {
+        { let mut w = ctx.create_writer(&key).expect("harness: unexpected create_writer error"); set(&mut w); }
+        ctx.written_to(&key, MapEqualsChecker).expect("harness: unexpected written_to error");
+      } else {
+        ctx.write(&key, MapEqualsChecker, |w| { set(w); Ok(()) }).expect("harness: unexpected write error");
+      }
+    }
     _ => panic!("harness: unknown resource type"),
   }
 }
@@ -337,7 +359,7 @@ pub fn task_id_of(ty: TypeId, num: u32) -> Option<i64> {
   world::scn().task_id(k, num)
 }
 pub fn res_id_of(ty: TypeId, num: u32) -> Option<i64> {
-  let k = if ty == TypeId::of::<Res<0>>() { 0 } else if ty == TypeId::of::<Res<1>>() { 1 } else { return None };
+  let k = if ty == TypeId::of::<Res<0>>() { 0 } else if ty == TypeId::of::<Res<1>>() { 1 } else if ty == TypeId::of::<MK>() { 2 } else { return None };
   world::scn().res_id(k, num)
 }
 
@@ -366,7 +388,7 @@ pub fn parse_val(s: &str) -> i64 {
 /// Abstract id of the debug text of a checker.
 pub fn parse_chk(s: &str) -> &'static str {
   match s.trim() {
-    "Eq" => "eq", "Ex" => "ex", "Par" => "par", "Any" => "any", "EqF" => "eqF", "Near" => "near", "NearOut" => "near",
+    "Eq" => "eq", "Ex" => "ex", "Par" => "par", "Any" => "any", "EqF" => "eqF", "Near" => "near", "NearOut" => "near", "MapEqualsChecker" => "eq",
     "EqualsChecker" => "eq", "OkEqualsChecker" => "okeq", "ErrEqualsChecker" => "erreq", "ResultChecker" => "res",
     "AlwaysConsistent" => "any",
     _ => "?",
